@@ -83,23 +83,6 @@ def inspect_frame(frame: FrameType) -> FrameDetails:
     assert frame_raw.ob_size >= (end_offset - localsplus_offset) / wordsize
     assert end_offset == frame.__sizeof__()
 
-    # Figure out what portion of the stack is actually valid, and extract
-    # the PyObject pointers. We just store their addresses (id), not taking
-    # references or anything.
-    if frame_raw.f_stacktop == 0:
-        # Frames that are currently executing have a NULL stacktop (a
-        # -1 stackdepth on 3.9+).  Copy the whole stack; we'll trim it
-        # below based on which blocks are active.
-        stack_top_offset = end_offset
-    else:
-        stack_top_offset = frame_raw.f_stacktop - id(frame)
-        assert stack_start_offset <= stack_top_offset <= end_offset
-    stack = [
-        ctypes.c_size_t.from_address(id(frame) + offset).value
-        for offset in range(stack_start_offset, stack_top_offset, wordsize)
-    ]
-    # Now stack[i] corresponds to f_valuestack[i] in C.
-
     # Figure out the active context managers and finally blocks. Each
     # context manager pushes a block to a fixed-size block stack (20
     # 12-byte entries, this has been unchanged for ages) which is
@@ -118,67 +101,129 @@ def inspect_frame(frame: FrameType) -> FrameDetails:
             ("b_level", ctypes.c_int),
         ]
 
+    class BlockStack(ctypes.Structure):
+        # f_lasti, f_lineno, f_iblock, f_executing/f_state (+ padding),
+        # then the blocks: the end of the fixed-size part of the frame
+        _fields_ = [
+            ("f_lasti", ctypes.c_int),
+            ("f_lineno", ctypes.c_int),
+            ("f_iblock", ctypes.c_int),
+            ("f_state", ctypes.c_int),
+            ("blocks", PyTryBlock * 20),
+        ]
+
     blockstack_offset = localsplus_offset - 20 * ctypes.sizeof(PyTryBlock)
-    f_iblock = ctypes.c_int.from_address(id(frame) + blockstack_offset - 8)
+    assert blockstack_offset - 16 > ctypes.sizeof(FrameObjectStart) - wordsize
+    blockstack_raw = BlockStack.from_address(id(frame) + blockstack_offset - 16)
     f_lasti = ctypes.c_int.from_address(id(frame) + blockstack_offset - 16)
 
     # The internal f_lasti and b_handler went from counting bytes to
     # code units in 3.10
     offset_mult = 2 if sys.version_info >= (3, 10) else 1
 
-    if frame.f_lasti == -1:
-        assert f_lasti.value == -1
-    else:
-        assert f_lasti.value * offset_mult == frame.f_lasti
-    assert 0 <= f_iblock.value <= 20
-    assert blockstack_offset > ctypes.sizeof(FrameObjectStart)
+    # If the frame is executing on another thread, it can move on whenever
+    # we make a call or a backward jump (the points at which the interpreter
+    # considers switching threads). Everything that we read from it must
+    # therefore belong to one position: the block stack is copied in one
+    # step, together with the f_lasti it belongs to, and each value-stack
+    # slot is read (which takes a reference) immediately after checking
+    # that f_lasti is still the same, with no call in between. This might
+    # require more than one attempt.
+    for _ in range(10):
+        # (ctypes copies the bytes when a structure is constructed from
+        # another: one C call)
+        snapshot = BlockStack.from_buffer_copy(blockstack_raw)
+        executing = frame_raw.f_stacktop == 0
+        del details.blocks[:]
 
-    blockstack_end_offset = blockstack_offset + (
-        f_iblock.value * ctypes.sizeof(PyTryBlock)
-    )
-    assert blockstack_offset <= blockstack_end_offset <= localsplus_offset
+        try:
+            if frame.f_lasti == -1:
+                assert snapshot.f_lasti == -1
+            else:
+                assert snapshot.f_lasti * offset_mult == frame.f_lasti
+            assert 0 <= snapshot.f_iblock <= 20
 
-    # Process blocks on the current block stack
-    while blockstack_offset < blockstack_end_offset:
-        block = PyTryBlock.from_address(id(frame) + blockstack_offset)
-        assert (
-            0 < block.b_type <= 257
-            and (
-                # EXCEPT_HANDLER blocks (type 257) can have a bogus b_handler
-                (-1 if block.b_type == 257 else 0)
-                <= block.b_handler * offset_mult
-                < len(co.co_code)
-            )
-            and 0 <= block.b_level <= len(stack)
-        )
+            if executing:
+                # Frames that are currently executing have a NULL stacktop (a
+                # -1 stackdepth on 3.10). We'll trim the stack below based on
+                # which blocks are active.
+                stack_len = co.co_stacksize
+            else:
+                stack_top_offset = frame_raw.f_stacktop - id(frame)
+                assert stack_start_offset <= stack_top_offset <= end_offset
+                stack_len = (stack_top_offset - stack_start_offset) // wordsize
 
-        # Looks like a valid block -- is it a finally block?
-        if block.b_type == dis.opmap["SETUP_FINALLY"]:
-            details.blocks.append(
-                FrameDetails.FinallyBlock(
-                    handler=block.b_handler * offset_mult,
-                    level=block.b_level,
+            # Process blocks on the current block stack
+            for idx in range(snapshot.f_iblock):
+                block = snapshot.blocks[idx]
+                assert (
+                    0 < block.b_type <= 257
+                    and (
+                        # EXCEPT_HANDLER blocks (type 257) can have a bogus b_handler
+                        (-1 if block.b_type == 257 else 0)
+                        <= block.b_handler * offset_mult
+                        < len(co.co_code)
+                    )
+                    and 0 <= block.b_level <= stack_len
                 )
-            )
 
-        blockstack_offset += ctypes.sizeof(PyTryBlock)
+                # Looks like a valid block -- is it a finally block?
+                if block.b_type == dis.opmap["SETUP_FINALLY"]:
+                    details.blocks.append(
+                        FrameDetails.FinallyBlock(
+                            handler=block.b_handler * offset_mult,
+                            level=block.b_level,
+                        )
+                    )
 
-    # Map the addresses in `stack` back to actual objects. The safest
-    # way is to use gc.get_referents(). For an executing frame, though,
-    # get_referents() doesn't walk the value stack, so we have to make our
-    # references the hard way.
-    if frame_raw.f_stacktop == 0:
-        if details.blocks:
-            stack_validity_limit = max(blk.level for blk in details.blocks)
-        else:
-            stack_validity_limit = 0
-        del stack[stack_validity_limit:]
-        details.stack = [
-            None if address == 0 else ctypes.cast(address, ctypes.py_object).value
-            for address in stack
-        ]
+            if executing:
+                # For an executing frame, gc.get_referents() doesn't walk the
+                # value stack, so we have to make our references the hard way.
+                # Only the part of the stack below the innermost block that
+                # we care about is known to be valid.
+                if details.blocks:
+                    stack_len = max(blk.level for blk in details.blocks)
+                else:
+                    stack_len = 0
+                stack_ptr = (ctypes.py_object * stack_len).from_address(
+                    id(frame) + stack_start_offset
+                )
+                details.stack = []
+                for i in range(stack_len):
+                    assert f_lasti.value == snapshot.f_lasti
+                    try:
+                        # Read the PyObject* from memory and take a reference
+                        # to it, in one atomic operation
+                        obj = stack_ptr[i]
+                    except ValueError:
+                        # ctypes raises this if a PyObject* is NULL. We'll
+                        # record those as None.
+                        obj = None
+                    details.stack.append(obj)
+                assert f_lasti.value == snapshot.f_lasti
+            else:
+                # Suspended: map the addresses on the stack back to actual
+                # objects with gc.get_referents(), which is the safest way.
+                stack = [
+                    ctypes.c_size_t.from_address(id(frame) + offset).value
+                    for offset in range(
+                        stack_start_offset, stack_start_offset + stack_len * wordsize, wordsize
+                    )
+                ]
+                object_from_id_map = {id(obj): obj for obj in gc.get_referents(frame)}
+                details.stack = [object_from_id_map.get(value) for value in stack]
+
+        except AssertionError:
+            if f_lasti.value == snapshot.f_lasti:
+                raise
+            # otherwise this was probably a concurrent modification, try again
+            continue
+        break
     else:
-        object_from_id_map = {id(obj): obj for obj in gc.get_referents(frame)}
-        details.stack = [object_from_id_map.get(value) for value in stack]
+        raise RuntimeError(
+            "Could not obtain a consistent stack snapshot. Probably this frame "
+            "is running in another thread and is too complex for us to scan the "
+            "stack before we get preempted."
+        )
 
     return details
